@@ -135,6 +135,38 @@ impl<T: TypedScenario> Scenario for T {
     }
 }
 
+/// Wrapper that runs only the first 1/frac of another scenario's batch (same run index -> same plan).
+pub struct Sub {
+    pub inner: Box<dyn Scenario>,
+    pub frac: u64,
+    pub min: u64,
+}
+
+impl Scenario for Sub {
+    fn name(&self) -> &'static str {
+        self.inner.name()
+    }
+    fn n_runs(&self, tier: Tier) -> u64 {
+        let n = self.inner.n_runs(tier);
+        (n / self.frac.max(1)).max(self.min.min(n))
+    }
+    fn run(&self, seed: u64, tier: Tier, i: u64, out: &mut RunOut) -> Value {
+        self.inner.run(seed, tier, i, out)
+    }
+    fn plan_json(&self, seed: u64, tier: Tier, i: u64) -> Value {
+        self.inner.plan_json(seed, tier, i)
+    }
+    fn replay(&self, plan: &Value, out: &mut RunOut) -> Result<(), String> {
+        self.inner.replay(plan, out)
+    }
+    fn shrink(&self, plan: &Value) -> Vec<Value> {
+        self.inner.shrink(plan)
+    }
+    fn chunk(&self) -> u64 {
+        self.inner.chunk()
+    }
+}
+
 /// A violation located in a batch.
 #[derive(Clone, Debug)]
 pub struct Found {
@@ -154,6 +186,9 @@ pub struct BatchStats {
     pub samples: Vec<Value>,
     pub found: Vec<Found>,
     pub per_scenario: BTreeMap<String, (u64, u64)>,
+    /// (scenario, run, digest) for every run — only filled when `keep_run_digests` is set
+    pub keep_run_digests: bool,
+    pub run_digests: Vec<(&'static str, u64, (u64, u64))>,
 }
 
 pub fn workers() -> usize {
@@ -265,9 +300,12 @@ pub fn run_batch(scenarios: &[Box<dyn Scenario>], seed: u64, tier: Tier, stats: 
                             let nruns = agg.digests.len() as u64;
                             st.runs += nruns;
                             st.events += agg.events;
-                            for d in &agg.digests {
+                            for (k, d) in agg.digests.iter().enumerate() {
                                 st.digest.u64(d.0);
                                 st.digest.u64(d.1);
+                                if st.keep_run_digests {
+                                    st.run_digests.push((sc.name(), want * CHUNK + k as u64, *d));
+                                }
                             }
                             for (key, v) in agg.counters {
                                 *st.counters.entry(key).or_insert(0) += v;
@@ -551,7 +589,107 @@ pub fn finish(rep: &Report, scenarios: &[Box<dyn Scenario>], stats: &BatchStats,
     Outcome { violations: lines_v.len() as u64, known: lines_k.len() as u64 }
 }
 
-pub fn run_property(rep: Report, scenarios: Vec<Box<dyn Scenario>>) -> i32 {
+/// `digests` mode: run the batch and write one JSON line per run (digest + C11 findings) to `out_path`.
+pub fn write_digests(rep: &Report, scenarios: &[Box<dyn Scenario>], out_path: &Path) -> i32 {
+    let mut stats = BatchStats { keep_run_digests: true, ..Default::default() };
+    run_batch(scenarios, rep.seed, rep.tier, &mut stats, rep.property, &rep.root);
+    let mut viols: BTreeMap<(&str, u64), Vec<&Found>> = BTreeMap::new();
+    for f in &stats.found {
+        viols.entry((f.scenario, f.run)).or_default().push(f);
+    }
+    let mut s = String::new();
+    for (sc, run, d) in &stats.run_digests {
+        let v: Vec<Value> = viols
+            .get(&(*sc, *run))
+            .map(|fs| fs.iter().map(|f| json!({"check_id": f.viol.check_id, "signature": f.viol.signature, "detail": f.viol.detail, "plan": f.plan})).collect())
+            .unwrap_or_default();
+        s.push_str(&json!({"s": sc, "r": run, "d": [d.0, d.1], "v": v}).to_string());
+        s.push('\n');
+    }
+    match std::fs::write(out_path, s) {
+        Ok(()) => 0,
+        Err(e) => {
+            eprintln!("harness error: cannot write {}: {e}", out_path.display());
+            2
+        }
+    }
+}
+
+/// C11: execute the same plans in the second build profile (a child process running the `dbg` binary)
+/// and merge what it saw: its own C11 findings, and any run whose event-log digest differs.
+fn second_profile(rep: &Report, scenarios: &[Box<dyn Scenario>], stats: &mut BatchStats) -> Result<(u64, u64), String> {
+    let Ok(bin) = std::env::var("CBSIM_DBG_BIN") else {
+        return Err("CBSIM_DBG_BIN is not set (the check script builds the dbg profile and sets it)".into());
+    };
+    let tmp = std::env::temp_dir().join(format!("cbsim-dbg-digests-{}-{}.jsonl", std::process::id(), rep.seed));
+    let status = std::process::Command::new(&bin)
+        .args(["digests", rep.property, "--tier", rep.tier.name(), "--seed", &rep.seed.to_string(), "--root"])
+        .arg(&rep.root)
+        .arg("--out")
+        .arg(&tmp)
+        .stdout(std::process::Stdio::null())
+        .status()
+        .map_err(|e| format!("cannot run {bin}: {e}"))?;
+    if !status.success() {
+        let _ = std::fs::remove_file(&tmp);
+        return Err(format!("{bin} digests exited with {status}"));
+    }
+    let text = std::fs::read_to_string(&tmp).map_err(|e| e.to_string())?;
+    let _ = std::fs::remove_file(&tmp);
+    let mine: BTreeMap<(&str, u64), (u64, u64)> = stats.run_digests.iter().map(|(s, r, d)| ((*s, *r), *d)).collect();
+    let mut compared = 0u64;
+    let mut diverged = 0u64;
+    for line in text.lines() {
+        let v: Value = serde_json::from_str(line).map_err(|e| format!("bad digest line: {e}"))?;
+        let (Some(sn), Some(run)) = (v["s"].as_str(), v["r"].as_u64()) else { continue };
+        let Some(sc) = scenarios.iter().find(|s| s.name() == sn) else { continue };
+        let d = (v["d"][0].as_u64().unwrap_or(0), v["d"][1].as_u64().unwrap_or(0));
+        compared += 1;
+        let same = mine.get(&(sc.name(), run)) == Some(&d);
+        let mut explained = false;
+        for f in v["v"].as_array().cloned().unwrap_or_default() {
+            let cid = f["check_id"].as_str().unwrap_or("").to_string();
+            if !cid.starts_with("C11/") {
+                continue;
+            }
+            // present in the release run too? then it is already in stats.found
+            let sig = f["signature"].as_str().unwrap_or("").to_string();
+            let already = stats.found.iter().any(|x| x.scenario == sc.name() && x.run == run && x.viol.check_id == cid && x.viol.signature == sig);
+            if !already {
+                explained = true;
+                let mut plan = f["plan"].clone();
+                if plan.is_null() {
+                    plan = sc.plan_json(rep.seed, rep.tier, run);
+                }
+                stats.found.push(Found {
+                    scenario: sc.name(),
+                    run,
+                    viol: Viol { check_id: cid, signature: format!("profile=dbg:{}", sig), detail: format!("[debug-assertion/overflow-checked profile only] {}", f["detail"].as_str().unwrap_or("")), plan: None },
+                    plan: json!({"profile": "dbg", "plan": plan}),
+                });
+            }
+        }
+        if !same {
+            diverged += 1;
+            if !explained {
+                stats.found.push(Found {
+                    scenario: sc.name(),
+                    run,
+                    viol: Viol {
+                        check_id: "C11/profile-divergence".into(),
+                        signature: sc.name().to_string(),
+                        detail: format!("event log of run {} of {} differs between the release and the dbg profile (release {:?}, dbg {:?})", run, sc.name(), mine.get(&(sc.name(), run)), d),
+                        plan: None,
+                    },
+                    plan: json!({"profile": "dbg", "plan": sc.plan_json(rep.seed, rep.tier, run)}),
+                });
+            }
+        }
+    }
+    Ok((compared, diverged))
+}
+
+pub fn run_property(mut rep: Report, scenarios: Vec<Box<dyn Scenario>>) -> i32 {
     let known = match Known::load(&rep.root) {
         Ok(k) => k,
         Err(e) => {
@@ -560,8 +698,20 @@ pub fn run_property(rep: Report, scenarios: Vec<Box<dyn Scenario>>) -> i32 {
         }
     };
     let t0 = Instant::now();
-    let mut stats = BatchStats::default();
+    let two_profiles = rep.property == "C11";
+    let mut stats = BatchStats { keep_run_digests: two_profiles, ..Default::default() };
     run_batch(&scenarios, rep.seed, rep.tier, &mut stats, rep.property, &rep.root);
+    if two_profiles {
+        match second_profile(&rep, &scenarios, &mut stats) {
+            Ok((compared, diverged)) => {
+                rep.extra.insert("profiles".into(), json!({"release": "opt-level 3, no debug assertions, no overflow checks (this process)", "dbg": "opt-level 1, debug assertions, overflow checks (child process, same plans)", "runs_compared": compared, "runs_with_different_event_log": diverged}));
+            }
+            Err(e) => {
+                eprintln!("harness error: {e}");
+                return 2;
+            }
+        }
+    }
     let wall = t0.elapsed().as_secs_f64();
     let out = finish(&rep, &scenarios, &stats, &known, wall);
     if out.violations > 0 { 1 } else { 0 }
@@ -589,13 +739,29 @@ pub fn replay_file(path: &Path, property: &'static str, scenarios: &[Box<dyn Sce
             return 2;
         }
     };
+    // findings of the second profile carry {"profile":"dbg","plan":..}: hand over to the dbg binary
+    let mut plan = doc["plan"].clone();
+    if plan.get("profile").and_then(|p| p.as_str()) == Some("dbg") {
+        if !cfg!(debug_assertions) {
+            let Ok(bin) = std::env::var("CBSIM_DBG_BIN") else {
+                eprintln!("harness error: this replay needs the dbg profile; run it through ./check C11 --replay <file>");
+                return 2;
+            };
+            let st = std::process::Command::new(bin).arg("replay").arg(property).arg(path).arg("--root").arg(root).status();
+            return st.ok().and_then(|s| s.code()).unwrap_or(2);
+        }
+        plan = plan["plan"].clone();
+    }
     let mut out = RunOut::default();
-    if let Err(e) = sc.replay(&doc["plan"], &mut out) {
+    if let Err(e) = sc.replay(&plan, &mut out) {
         eprintln!("harness error: {e}");
         return 2;
     }
     let mut bad = 0;
     for v in &out.viols {
+        if !v.check_id.starts_with(property) {
+            continue;
+        }
         if let Some(k) = known.matches(property, v) {
             println!("KNOWN-FINDING: property={} {} [{} {}] replay={}", property, k.what, v.check_id, v.signature, path.display());
         } else {
